@@ -272,6 +272,9 @@ func classOfType(t string) byte {
 func representable(src c03Source, typ string) string {
 	lo, hi, _ := typeRange(typ)
 	e := src.goExpr
+	if src.id == "ubig" {
+		return "true"
+	}
 	switch src.class {
 	case 'I':
 		e = "int64(" + e + ")"
@@ -379,6 +382,8 @@ func genC03(tier string, seed int64) (*Family, error) {
 		{"n8", "\tn8 := vnd.Int8(\"n8\")\n\tdc.Add(\"n8\", n8)\n", "n8", "n8", 'I', "int8"},
 		{"nu8", "\tnu8 := vnd.Uint8(\"nu8\")\n\tdc.Add(\"nu8\", nu8)\n", "nu8", "nu8", 'U', "uint8"},
 		{"nf32", "\tkk := vnd.Int8(\"kk\")\n\tnf32 := float32(kk)\n\tdc.Add(\"nf32\", nf32)\n", "nf32", "nf32", 'F', "float32"},
+		// round 7 (seed C03-m13): unsigned values with the top bit set that are exactly representable as float32/float64
+		{"ubig", "\tkb := vnd.Uint8(\"kb\")\n\tubig := uint64(1)<<63 + uint64(kb)<<40\n\tdc.Add(\"ubig\", ubig)\n", "ubig", "ubig", 'U', ""},
 	}
 	var b strings.Builder
 	add := func(name, stratum, desc, src string) {
@@ -394,6 +399,9 @@ func genC03(tier string, seed int64) (*Family, error) {
 		for _, s := range sources {
 			if !t.cross && s.class != tc {
 				continue
+			}
+			if s.id == "ubig" && !(t.cross && tc == 'F') {
+				continue // above MaxInt64: representable only in the float targets (and uint64, covered by u)
 			}
 			if tier != "thorough" && s.narrow != "" && t.cross && !(t.key == "I64" || t.key == "U64" || t.key == "F64" || t.key == "pi") {
 				continue // quick: narrow sources into the 64-bit fields and every container
